@@ -229,7 +229,7 @@ func genAddrCase(r *core.Rand) string {
 		sb.WriteString(r.Pick([]string{"", "", ":80", ":443", ":0", ":65535", ":65536", ":-1", ":+80", ":08", ":x", ":", ":80:90", ":99999999999999999999", ":8080 "}))
 		sb.WriteString(r.Pick([]string{"", "", "/", "/path", "/a/b", "//x", "/a://b"}))
 		if r.Chance(1, 8) {
-			return "addr " + core.Hex(" \t" + sb.String() + "\n ")
+			return "addr " + core.Hex(" \t"+sb.String()+"\n ")
 		}
 		return "addr " + core.Hex(sb.String())
 	}
